@@ -13,10 +13,10 @@ CONSTANTS
   PUB = {"unset"}
   FK = {"ok"}
   SF = {"S1"}
-  RCBS = {"unset", "A", "B", "ws", "bad"}
-  RCAS = {"unset", "A", "bad", "badonly"}
-  RCBD = {"unset", "A", "B", "bad"}
-  RPBL = {"unset", "A", "bad"}
+  RCBS = {"unset", "A", "B", "ws", "bad", "badfirst"}
+  RCAS = {"unset", "A", "bad", "badfirst", "badonly"}
+  RCBD = {"unset", "A", "B", "bad", "badfirst"}
+  RPBL = {"unset", "A", "bad", "badfirst"}
   RGEO = {"unset", "missing"}
   RPUB = {"unset", "true"}
   RFK = {"ok", "syntax", "wrongtype", "unreadable"}
